@@ -111,16 +111,23 @@ struct ReplyWorld : World {
 		static const int caps[] = {3, 16, 64, 4096};
 		p.set("chancap", r.pick(caps));
 		int nops = (int) r.range(1, tier ? 80 : 40); bool iof = r.chance(1, 2);
+		// pressure: a pipe that takes three bytes at a time, many requests with short answers: the write queue fills up and has to grow
+		// in the middle of one of them (in its id header, in its body, in its terminator), and that is where the allocation faults are aimed
+		bool pressure = r.chance(1, 3);
+		if (pressure) { p.set("chancap", 3); p.set("maxreq", 48); nops = (int) r.range(40, 140); iof = true; }
 		for (int i = 0; i < nops; ++i) {
 			Op op; unsigned k = (unsigned) r.below(12);
 			op.kind = k < 4 ? OP_REQ : k < 7 ? OP_DELIVER : k < 10 ? OP_SERVE : OP_FLUSH;
+			if (pressure && op.kind == OP_FLUSH && r.chance(2, 3)) op.kind = OP_REQ;
 			op.a = (int64_t) r.next(); op.b = r.below(6) | (r.below(5) << 8); op.c = r.chance(1, 3) ? 1 : r.chance(1, 2) ? 1000000 : r.range(1, 40);
+			if (pressure && op.kind == OP_REQ) { op.b = 3 | (r.below(r.chance(1, 8) ? 5 : 4) << 8); if (r.chance(1, 2)) op.c = 0; }
 			if (iof && op.kind == OP_FLUSH && r.chance(1, 2)) { op.fault = r.chance(1, 2) ? FL_SHORT : FL_EAGAIN; op.fa = r.range(1, 5); }
-			if (iof && op.kind == OP_SERVE && r.chance(1, 4)) { op.fault = FL_ALLOC; op.fa = r.range(1, 4) + (r.chance(1, 3) ? 16 : 0); }
+			if (iof && op.kind == OP_SERVE && r.chance(1, pressure ? 2 : 4)) { op.fault = FL_ALLOC; op.fa = (pressure ? r.range(1, 2) : r.range(1, 4)) + (r.chance(1, 3) ? 16 : 0); }
 			p.ops.push_back(op);
 		}
+		p.set("varlong", r.chance(1, 2));     // long replies of 150..749 bytes: the point where the write queue has to grow falls anywhere in a later reply
 	}
-	struct SReq { uint64_t id; int behaviour; int replies = 0; int handled = 0; bool faulted = false; Bytes payload; };
+	struct SReq { uint64_t id; int behaviour; int replies = 0; int handled = 0; bool faulted = false; Bytes payload; size_t longlen = 700; };
 	struct Responder { std::vector<SReq> *reqs; unsigned idlen; Log *log; uint64_t calls = 0; };
 	static int responder_handler(void *arg, event *ev) {
 		Harness h;
@@ -141,7 +148,7 @@ struct ReplyWorld : World {
 		case 1: { Reenter s; mpt_context_reply(ev->reply, 0, "%s", "done"); } return 0;
 		case 2: { int r1, r2; { Reenter s; r1 = mpt_context_reply(ev->reply, 0, "%s", "first"); r2 = mpt_context_reply(ev->reply, 1, "%s", "second"); }
 			if (r1 >= 0 && r2 >= 0) pend("second-reply", "two explicit replies to request %llx were both accepted", (unsigned long long) q->id); return 0; }
-		case 4: { Bytes b = {(uint8_t) msgtype::Answer, 0, 'l', 'o', 'n', 'g'}; while (b.size() < 700) b.push_back((uint8_t) ('a' + b.size() % 23));     // larger than the initial write queue
+		case 4: { Bytes b = {(uint8_t) msgtype::Answer, 0, 'l', 'o', 'n', 'g'}; while (b.size() < q->longlen) b.push_back((uint8_t) ('a' + b.size() % 23));     // larger than the initial write queue
 			message m; m.base = b.data(); m.used = b.size(); m.cont = 0; m.clen = 0; { Reenter s; ev->reply->reply(&m); } return 0; }
 		case 3: return -3;      // handler fails without answering: the default reply carries the error
 		default: return 0;      // handler succeeds without answering: default reply
@@ -179,7 +186,7 @@ struct ReplyWorld : World {
 				auto has = [&](const char *t) { size_t n = strlen(t); return std::search(body.begin(), body.end(), t, t + n) != body.end(); };
 				if (q->faulted) continue;        // answered while an allocation failed: which of the answers made it is not constrained
 				if (q->behaviour == 1 && !has("done")) fail("wrong-answer", "explicit reply to %llx does not carry the handler's text (%zu bytes)", (unsigned long long) id, body.size());
-				if (q->behaviour == 4 && (!has("long") || body.size() != 700)) fail("wrong-answer", "long reply to %llx arrived with %zu of 700 bytes", (unsigned long long) id, body.size());
+				if (q->behaviour == 4 && (!has("long") || body.size() != q->longlen)) fail("wrong-answer", "long reply to %llx arrived with %zu of %zu bytes", (unsigned long long) id, body.size(), q->longlen);
 				if (q->behaviour == 2 && !has("first")) fail("wrong-answer", "reply to %llx is not the first of the two answers given (%zu bytes)", (unsigned long long) id, body.size());
 				if (q->behaviour == 0 || q->behaviour == 3) {
 					Bytes want = {(uint8_t) msgtype::Answer, (uint8_t) (q->behaviour == 3 ? -3 : 0)};
@@ -216,7 +223,7 @@ struct ReplyWorld : World {
 			int outcome = 0;
 			switch (op.kind) {
 			case OP_REQ: {
-				if (reqs.size() >= 12) break;
+				if (reqs.size() >= (size_t) std::min<int64_t>(std::max<int64_t>(p.get("maxreq", 12), 1), 64)) break;
 				unsigned sel = (unsigned) (op.b & 0xff) % 6;
 				uint64_t lim = (1ull << (8 * idlen - 1)) - 1;
 				uint64_t id = sel == 0 ? 0 : sel == 1 ? 1 : sel == 2 ? lim : 1 + ((uint64_t) op.a % lim);
@@ -224,6 +231,7 @@ struct ReplyWorld : World {
 				if (dup) break;
 				SReq q; q.id = id; q.behaviour = (int) ((op.b >> 8) & 0xff) % 5;
 				q.payload = {0x04, 0x00}; for (int k = 0; k < 4; ++k) q.payload.push_back((uint8_t) (serial >> (8 * k))); ++serial;
+				if (p.get("varlong")) q.longlen = 150 + (size_t) (((uint64_t) op.a >> 16) % 600);
 				size_t extra = (size_t) op.c % 30; for (size_t k = 0; k < extra; ++k) q.payload.push_back((uint8_t) (op.a >> (k % 8)));
 				Bytes msg(idlen); for (unsigned k = 0; k < idlen; ++k) msg[idlen - 1 - k] = (uint8_t) (id >> (8 * k));
 				msg.insert(msg.end(), q.payload.begin(), q.payload.end());
@@ -297,15 +305,20 @@ struct ReplyWorld : World {
 		p.set("sync", syncm);
 		p.set("big", r.chance(1, 3));      // payloads up to 250 bytes: the 256 byte write queue has to grow while earlier messages are still pending
 		int nops = (int) r.range(1, tier ? 90 : 45); bool iof = r.chance(1, 2), af = r.chance(1, 3);
+		// pressure (as in L1): tiny pipe, many small requests, allocation faults aimed at the serve calls whose answers make the write queue grow
+		bool pressure = r.chance(1, 4);
+		if (pressure) { p.set("chancap", 5); p.set("big", 0); p.set("maxreq", 40); if (!p.get("idlen")) p.set("idlen", 4); nops = (int) r.range(40, 160); af = true; }
 		for (int i = 0; i < nops; ++i) {
 			Op op; unsigned k = (unsigned) r.below(16);
 			op.kind = k < 4 ? OP_REQ : k < 7 ? OP_DELIVER : k < 11 ? OP_SERVE : k < 13 ? OP_FLUSH : k < 15 ? OP_DREPLY2 : OP_SYNC;
 			if (syncm && (k == 10 || k == 14)) op.kind = OP_SYNC;     // the requester takes its replies mostly through sync
+			if (pressure && op.kind == OP_FLUSH && r.chance(2, 3)) op.kind = OP_REQ;
 			// a: random bits, b: side | behaviour << 8 | await << 16, c: size / count
 			op.a = (int64_t) r.next(); op.b = r.below(2) | (r.below(7) << 8) | ((r.chance(1, 6) ? 0 : 1) << 16); op.c = r.chance(1, 3) ? 1 : r.chance(1, 2) ? 1000000 : r.range(1, 40);
+			if (pressure && op.kind == OP_REQ) { op.b = r.below(2) | (r.below(r.chance(1, 8) ? 7 : 4) << 8) | (1 << 16); op.c = r.below(3); }
 			if (op.kind == OP_SYNC) op.c = r.below(20000);
 			if (iof && op.kind == OP_FLUSH && r.chance(1, 2)) { op.fault = r.chance(1, 2) ? FL_SHORT : FL_EAGAIN; op.fa = r.range(1, 5); }
-			if (af && (op.kind == OP_SERVE || op.kind == OP_REQ || op.kind == OP_DREPLY2) && r.chance(1, 4)) { op.fault = FL_ALLOC; op.fa = r.range(1, 5); if (op.kind == OP_SERVE && r.chance(1, 3)) op.fa += 16; }
+			if (af && (op.kind == OP_SERVE || op.kind == OP_REQ || op.kind == OP_DREPLY2) && r.chance(1, pressure && op.kind == OP_SERVE ? 2 : 4)) { op.fault = FL_ALLOC; op.fa = pressure ? r.range(1, 2) : r.range(1, 5); if (op.kind == OP_SERVE && r.chance(1, 3)) op.fa += 16; }
 			p.ops.push_back(op);
 		}
 	}
@@ -452,7 +465,7 @@ struct ReplyWorld : World {
 			int64_t failn = op.fault == FL_ALLOC ? std::max<int64_t>(op.fa, 1) : 0;
 			switch (op.kind) {
 			case OP_REQ: {
-				if (P.sent.size() >= 10) break;
+				if (P.sent.size() >= (size_t) std::min<int64_t>(std::max<int64_t>(p.get("maxreq", 10), 1), 64)) break;
 				CReq q; q.serial = serial++; q.behaviour = (int) ((op.b >> 8) & 0xff) % 7; q.awaited = (op.b >> 16) & 1; q.cb_result = ((op.a >> 2) & 3) == 0 ? -1 : 0;
 				q.payload = {0x08, 0x00}; for (int k = 0; k < 4; ++k) q.payload.push_back((uint8_t) (q.serial >> (8 * k)));
 				size_t extra = big ? (size_t) ((uint64_t) op.a >> 5) % 250 : (size_t) op.c % 40; for (size_t k = 0; k < extra; ++k) q.payload.push_back((uint8_t) (op.a >> (k % 8)));
